@@ -15,9 +15,4 @@ def AppendSafeAt (text s : Bytes) (line : Nat) : Prop :=
 instance (text s : Bytes) (line : Nat) : Decidable (AppendSafeAt text s line) := by
   unfold AppendSafeAt; infer_instance
 
-/-- The region where the single-line branch is safe: the text is multi-line (other branch), or it has
-no CR and does not start with a long-bracket opener `[` `=`* `[`. -/
-def H18 (text : Bytes) : Bool :=
-  text.contains 10 || (!text.contains 13 && (longOpen? text).isNone)
-
 end DarkluaModel.C18
